@@ -37,7 +37,7 @@ MIN_NONTRIVIAL = {"quick": 5000, "thorough": 20000}
 
 PARENTS = [
     "work", "build", "dist", "venv", ".venv", "node_modules", "__pycache__", "pkg.egg-info", ".pytest_cache",
-    ".mypy_cache", ".ruff_cache", "tests", "test", "test_data", "examples", "benches", "my_test.d",
+    ".mypy_cache", ".ruff_cache", "tests", "test", "test_data", "examples", "benches", "my_test.d", "shelf",
 ]
 
 
@@ -66,6 +66,17 @@ def _files():
     files[".thailintignore"] = "legacy/\narchive/old/\n"
     cfg = load.deep_merge(cfg, {"file-placement": {"directories": {"generated": {"allow": [r".*\.py$"]}, "generated/auto": {"deny": [{"pattern": r".*\.md$", "message": "no documents among generated code"}]}}}})
     cfg = load.deep_merge(cfg, {"ignore": ["archive/parked/"], "improper-logging": {"ignore": ["vendor/", "generated/auto/*"]}, "magic-numbers": {"ignore": ["vendor/", "generated/auto/*"]}})
+    # a shelf/ directory holding a copy of every example, ignored by EVERY linter's own `ignore:`
+    # list (and a parent directory called shelf in PARENTS: the pattern must not swallow a project
+    # that merely lives below a directory of that name)
+    for ps in index.values():
+        for p in ps:
+            files["shelf/" + p] = zoo[p]
+    for name, d in load.linters().items():
+        section = (d.get("config_sections") or [name])[0]
+        cur = dict(cfg.get(section) or {})
+        cur["ignore"] = list(cur.get("ignore") or []) + ["shelf/"]
+        cfg[section] = cur
     files[".thailint.yaml"] = yaml_dump(cfg)
     return files, index
 
@@ -151,6 +162,10 @@ def run_item(item) -> Acc:
     parent, depth = item["parent"], item["depth"]
     cmds = load.ALL_COMMANDS
     ref, ref_api = _baseline(cmds)
+    silent = [c for c in cmds if not ref[c][1]]
+    if silent:
+        # a command with nothing to report cannot show a dependence on location or spelling
+        raise RuntimeError(f"vacuous C09 project: no baseline violation for {silent}")
     base, root, other, index = _place(parent, depth)
     cwds = {"root": root, "subdir": root / "tests", "parent": root.parent, "elsewhere": other}
     fails: dict = {}
